@@ -4,7 +4,7 @@
    exactly the caller-buffer preconditions.)  Entry points not modelled here
    (signatures, password-hash strings, MAC verification through the object API)
    are covered by the correspondence / search part of the check only. *)
-From Dryoc Require Import Impl.SecretBox Impl.SecretStream Refine.Aead Refine.Stream.
+From Dryoc Require Import Impl.SecretBox Impl.SecretStream Impl.Box Refine.Aead Refine.Stream Refine.Box.
 Import SecretBoxImpl.
 Open Scope Z_scope.
 
@@ -26,6 +26,17 @@ Theorem C04_stream_obj_pull_total : forall s c ad,
 Proof. exact ss_obj_pull_never_panics. Qed.
 
 (* non-vacuity: a 5-byte "ciphertext" is an error, not a panic *)
+(* public-key and sealed boxes from an untrusted sender *)
+Theorem C04_box_open_total : forall mbuf c n pk sk,
+  (length c - 16 <= length mbuf)%nat -> fst (BoxImpl.open_easy mbuf c n pk sk) <> Panic.
+Proof. exact box_open_total. Qed.
+
+Theorem C04_box_open_inplace_total : forall cbuf n pk sk, fst (BoxImpl.open_easy_inplace cbuf n pk sk) <> Panic.
+Proof. exact box_open_inplace_total. Qed.
+
+Theorem C04_seal_open_total : forall mbuf c rpk rsk, fst (BoxImpl.seal_open mbuf c rpk rsk) <> Panic.
+Proof. exact seal_open_total. Qed.
+
 Example C04_example :
   fst (SecretStreamImpl.obj_pull_c (SecretStreamImpl.mk_state (zeros 32) (zeros 12)) [1;2;3;4;5] []) = Err.
 Proof. vm_compute. reflexivity. Qed.
